@@ -403,7 +403,7 @@ PRELUDE20 = "struct S2 { int a; int b; };\n"
 OPS = ["+", "==", "()", "[]", "->", "<<", "!", "new", "delete"]
 
 
-def nttp_source(rng, cxx20=False, nkinds=None, with_float=False):
+def nttp_source(rng, cxx20=False, nkinds=None, with_float=True, with_exprops=True):
     """class templates with non-type template arguments at outer and nested positions, followed by member
     functions, ctors, dtors, operators, nested classes and nested templates.
     returns (source text, {line: (expected, kind)})"""
@@ -535,6 +535,20 @@ def nttp_source(rng, cxx20=False, nkinds=None, with_float=False):
         ("template<class T> typename Val<-int(sizeof(T)) %% 3>::type %s(T) { return 0; }", "F(1);"),
         ("template<class T> auto %s(T a) -> decltype(a.template tq<int>()) { }", "F(fx::Tq());"),
     ]
+    if with_exprops:
+        # `dv`, `co`, `cm`, `nw`/`na` (finding F10j)
+        FX += [
+            ("template<class T> auto %s(T a, T b) -> decltype(a / b) { return a / b; }", "F(4, 2);"),
+            ("template<class T> typename Val<int(sizeof(T)) / 2 %% 3>::type %s(T) { return 0; }", "F(1);"),
+            ("template<class T> auto %s(T a) -> decltype(~a) { return ~a; }", "F(1);"),
+            ("template<class T> typename Val<~int(sizeof(T)) %% 3>::type %s(T) { return 0; }", "F(1);"),
+            ("template<class T> auto %s(T a, T b) -> decltype(a, b + 1) { return b; }", "F(1, 2);"),
+            ("template<class T> auto %s(T a) -> decltype(T(a), void(), T(a)) { return a; }", "F(1);"),
+            ("template<class T> auto %s(T a) -> decltype(new T(a)) { return 0; }", "F(1);"),
+            ("template<class T> auto %s(T a) -> decltype(new T) { return 0; }", "F(1);"),
+            ("template<class T> auto %s(T a) -> decltype(new T[3]) { return 0; }", "F(1);"),
+            ("template<class T> auto %s(T a, T b) -> decltype(a /= b) { return a; }", "F(1, 2);"),
+        ]
     emit("struct Tq { template<class U> void tq() { } };")
     calls = []
     for tpl, call in FX:
